@@ -13,7 +13,7 @@ from ..model import Undecided
 from ..cfg import dotted, call_name, is_call, simple_name, unparse, const_value, contains, enclosing, find_all
 from ..flow import expand, Defs, depends, try_const
 from ..decide import table, ret_kind
-from ..util import keyword, returns_of, calls_in, inside, order_key
+from ..util import calls_to, keyword, returns_of, calls_in, inside, order_key
 
 NOT_DECIDED = 'torn writes, directory states after a crash, durability (fsync), non-POSIX rename semantics'
 
@@ -391,3 +391,33 @@ def c06e(ctx):
     stores = [c for c in fc.walk() if is_call(c, 'self._store')]
     ok = bool(stores) and all(len(c.args) > 1 and depends(c.args[1], lambda x: is_call(x, 'self.tile_location'), defs) for c in stores)
     ctx.check(ok, 'FileCache.store_tile:location', 'the tile is stored at self.tile_location(tile, ...), the path load_tile opens', fc)
+
+
+@rule('C06.f', floor=2)
+def c06f(ctx):
+    """replace-by-rename, not remove-then-write: before the atomic write FileCache._store may only remove a *link* (the one case
+    the statement allows to read as missing: a linked single-colour tile that is being replaced); a regular tile stays in place
+    until the rename replaces it"""
+    fn = ctx.fn('mapproxy/cache/file.py:FileCache._store')
+    g = fn.cfg
+    wr = g.find(lambda x: is_call(x, 'write_atomic'))
+    rm = [(n, x) for n, x in g.find(lambda x: is_call(x, 'os.unlink', 'os.remove', 'os.rename', 'os.replace', 'shutil.move', 'os.truncate'))
+          if x.args and unparse(x.args[0]) == fn.params[2]]
+    ctx.check(bool(wr), 'FileCache._store:writes', 'the tile is written by write_atomic', fn)
+    for n, x in rm:
+        before = any(g.reaches_avoiding(n, w) for w, _ in wr)
+        ok = (not before) or g.guarded(n, lambda at: at.op is None and is_call(at.expr, 'os.path.islink', 'islink') and
+                                       unparse(at.expr.args[0]) == fn.params[2], True)
+        ctx.check(ok, 'FileCache._store:removes-only-links-before-write', 'the old entry is removed before the write only if it is a link', fn, x,
+                  fail='a regular tile is removed before the new content is renamed into place: a crash (or a failed write) in between '
+                       'leaves an address that had content reporting "missing"')
+    if not rm:
+        ctx.ok('FileCache._store:removes-only-links-before-write', 'nothing is removed before the write', fn)
+    # opening the final location for writing would truncate it: only write_atomic touches it (C06.a covers opens)
+    sc = ctx.fn('mapproxy/cache/file.py:FileCache._store_single_color_tile')
+    g2 = sc.cfg
+    un = [(n, x) for n, x in g2.find(lambda x: is_call(x, 'os.unlink', 'os.remove')) if x.args and unparse(x.args[0]) == sc.params[2]]
+    lk = calls_to(g2, Defs(sc.node), 'os.link', 'os.symlink')
+    ok = bool(lk) and all(any(g2.reaches_avoiding(n, l) for l, _ in lk) for n, _ in un)
+    ctx.check(ok, 'FileCache._store_single_color_tile:unlink-then-link', 'the only removal of a tile location outside _store is the unlink that '
+              'directly precedes the creation of the single-colour link (the window the statement allows)', sc)
